@@ -125,7 +125,7 @@ def real_case(draw, max_tasks=6):
 
     return {"kind": "real", "cores": draw(st.sampled_from([1, 2, 2, 3])), "tasks": tasks,
             "cancels": [list(c) for c in cancels], "second_wave": draw(st.booleans()),
-            "invoke": draw(gen.invoke(objs=False))}
+            "invoke": draw(gen.invoke(objs=False)), "rm_logs": draw(st.sampled_from([False, False, True]))}
 
 
 @st.composite
@@ -184,11 +184,16 @@ def run_real(case):
         try:
             proj.write_config({"backend": "local", "backend.local.port": pool.port, "backend.local.host": "127.0.0.1"})
             first = names if not case["second_wave"] else names[: max(1, len(names) // 2)]
+            if case.get("rm_logs"):
+                # the user cleared the logs (rm -r .gwf/logs); gwf makes the directory again when it is next used
+                import shutil
+
+                shutil.rmtree(proj.path(".gwf/logs"), ignore_errors=True)
+                labels.add("logs-directory-removed-before-run")
             # endpoints among the first wave only
             r = proj.gwf(["run", *first])
             if r.code != 0 or r.crashed:
-                v("C07", "local-run-failed", r.brief())
-                return viols, labels, {}
+                raise SubjectFailure("`gwf run` against a healthy local pool failed: " + r.brief())
             submissions = {}
             for n_ in r.submitting():
                 submissions[n_] = submissions.get(n_, 0) + 1
